@@ -12,6 +12,7 @@ def jobs(tier):
         *split(job(M, "c07_props", "props/C/subsets-orders-extra-keyword", dict(symbols=["C"]), max_seconds=ms), "xk", 15),
         job(M, "c07_props", "props/D-T-Cl", dict(symbols=["D", "T", "Cl", "H"], extra=False), max_seconds=ms),
         job(M, "c07_props", "props/coords", dict(symbols=["C"], extra=False, coords=True), max_seconds=ms),
+        job(M, "c07_props", "props/coords-raw-spellings", dict(symbols=["C"], extra=False, coords_raw=True), max_seconds=ms),
         *split(job(M, "c07_table", "table/n2/one-prop", dict(n=2, props="one"), max_seconds=ms), "el0", 5),
         job(M, "c07_table", "table/n2/all-props", dict(n=2, props="all", symbols=["C", "D", "Cl"]), max_seconds=ms),
         job(M, "c07_table", "table/n3/bonds", dict(n=3, props="none", symbols=["C"], bond_extra=True, permute_lines=False), max_seconds=ms),
